@@ -1,5 +1,20 @@
 import balance_common
 
+META = dict(
+    level="model_checking",
+    engine="Balance",
+    technique="TLA+ chain machine (spec/Balance.tla) model-checked by TLC for oracle satisfiability; TLC-generated "
+              "rebalance chains replayed on the real strategies; TLC evaluates ValidPlan on every real plan (spec/BalanceTrace.tla)",
+    text="TLC enumerates every group shape with <=3 members, 2 topics, <=3 partitions and every 2-step rebalance chain "
+         "(join/leave/subscription change/partition-count change/topic deletion, leavers rejoining with stale user data) and "
+         "simulates longer chains over 4 members x 3 topics x <=5 partitions; each chain is executed on the real range, "
+         "round-robin and sticky Plan with the real AssignmentData user data fed back; TLC then evaluates the validity "
+         "clauses on every plan the code returned. The oracle is itself model-checked to be satisfiable on the enumerated space.",
+    note="bounded enumeration; inputs respect what consumerGroup.balance supplies (topics = existing subscribed topics, "
+         "sorted partition lists, non-empty topic map); harness + TLC trusted",
+    design_ref="6/C08",
+)
+
 
 def run(ctx):
     return balance_common.run(ctx, "C08", balance_common.C08)
